@@ -11,11 +11,6 @@ void __gmpz_init_set(struct struct_2e__mpz_struct *dst, struct struct_2e__mpz_st
 void __gmpz_set(struct struct_2e__mpz_struct *dst, struct struct_2e__mpz_struct *src) { *dst = *src; }
 void __gmpz_swap(struct struct_2e__mpz_struct *a, struct struct_2e__mpz_struct *b) { struct struct_2e__mpz_struct t = *a; *a = *b; *b = t; }
 void __gmpz_clear(struct struct_2e__mpz_struct *a) { }
-#ifndef POOL_N
-# define POOL_N 15
-#endif
-uint64_t POOL_IDX[POOL_N + 2]; MPZ_T POOL_DAT[POOL_N + 1];
-int POOL_IDX_used, POOL_DAT_used;
 uint8_t *_Znam(uint64_t n) {
   if (!POOL_IDX_used && n == sizeof(POOL_IDX)) { POOL_IDX_used = 1; return (uint8_t *)POOL_IDX; }
   { uint8_t *p = (uint8_t *)malloc(n); __CPROVER_assume(p != 0); return p; }
@@ -27,3 +22,6 @@ uint8_t *_Znwm(uint64_t n) {
 static int is_static_array(uint8_t *p) { return p == (uint8_t *)POOL_IDX || p == (uint8_t *)POOL_DAT || p == (uint8_t *)G_idx || p == (uint8_t *)G_dat; }
 void _ZdaPv(uint8_t *p) { if (p != 0 && !is_static_array(p)) free(p); }
 void _ZdlPv(uint8_t *p) { if (p != 0 && !is_static_array(p)) free(p); }
+/* Coefficient_zero() returns *Coefficient_zero_p, a library-wide constant set up by the library initialiser */
+MPZ_T G_zero_coefficient;
+struct class_2e__gmp_expr* _ZN23Parma_Polyhedra_Library18Coefficient_zero_pE = &G_zero_coefficient;
